@@ -4,8 +4,9 @@
    10 = stored-form round trip of a well-formed pin is not the value minus the documented losses;
    11 = a decoded stored form is not re-encodable / not stable;
    12 = query-form round trip of options loses more than empty metadata keys;
-   13 = options decoded from a query do not re-encode to themselves. *)
-From V Require Import Base.Common Base.C08_Str Model.C08_Codec Model.C08_Query.
+   13 = options decoded from a query do not re-encode to themselves;
+   14 = a status filter of defined bits / a named pin type / a pin mode does not survive its string form. *)
+From V Require Import Base.Common Base.C08_Str Model.C08_Codec Model.C08_Query Model.C08_Status.
 Open Scope Z_scope.
 
 (* ---- decidable equalities on the value types ---- *)
@@ -66,7 +67,11 @@ Inductive payload :=
   | CPb (p : pin) (o : obs_pin)
   | CPbMsg (old : pin) (m : pbpin) (o o2 : obs_pin)
   | CQuery (orc : oracle) (o : opts) (ob : obs_q)
-  | CQRaw (orc : oracle) (now : Z * N) (old : opts) (q : query) (ob ob2 : obs_q).
+  | CQRaw (orc : oracle) (now : Z * N) (old : opts) (q : query) (ob ob2 : obs_q)
+  | CStatus (m : N) (s : string) (back : N)        (* TrackerStatus(m).String() = s ; TrackerStatusFromString(s) = back *)
+  | CStatusRaw (s : string) (back : N)             (* TrackerStatusFromString on an arbitrary string *)
+  | CPinType (t : N) (s : string) (back : N)       (* PinType(t).String() ; PinTypeFromString *)
+  | CModeStr (m : Z) (s : string) (back : Z).      (* PinMode(m).String() ; PinModeFromString *)
 
 Definition case := (N * payload)%type.
 
@@ -113,6 +118,19 @@ Definition check_case (c : case) : list (N * N * N) :=
       fail_if (negb (obs_q_eqb (match from_query orc now old q with Ok o => ObsQ o | Err => ObsQDecErr end) ob
                      && match ob with ObsQ o => obs_q_eqb (model_qcycle orc o) ob2 | _ => true end)) id 1 0 ++
       fail_if (negb (spec_qraw old ob ob2)) id 13 0
+  | CStatus m s back =>
+      (* the order of the names is the map iteration order: compared as sets *)
+      fail_if (negb (list_eqb String.eqb (ssort (split_on comma s)) (ssort (split_on comma (status_string st_table m)))
+                     && (back =? status_from_string s)%N)) id 1 0 ++
+      fail_if (st_valid_mask m && negb (back =? m)%N) id 14 0
+  | CStatusRaw s back =>
+      fail_if (negb (back =? status_from_string s)%N) id 1 0
+  | CPinType t s back =>
+      fail_if (negb (String.eqb s (pintype_string t) && (back =? pintype_from_string s)%N)) id 1 0 ++
+      fail_if (existsb (N.eqb t) [1; 2; 4; 8; 16; 30]%N && negb (back =? t)%N) id 14 0
+  | CModeStr m s back =>
+      fail_if (negb (String.eqb s (mode_string m) && (back =? mode_from_string s))) id 1 0 ++
+      fail_if (((m =? 0) || (m =? 1)) && negb (back =? m)) id 14 0
   end.
 
 Definition failing (cs : list case) : list (N * N * N) := flat_map check_case cs.
